@@ -64,6 +64,9 @@ VarScale == { [shape |-> sh, n |-> k] : sh \in {"many-vars", "many-vars-read", "
               \cup { [shape |-> "same-print", n |-> k] : k \in 0..5 }          \* constants of different kinds with the same printed form
 \* blocks nested to every supported depth, with more blocks opened afterwards (a sibling at every level on the way out, a second
 \* descent, a toplevel block): the limit is on the blocks open at one time, not on how deep the program has been before
+\* a bind whose type name is a late constant: n filler fields (two constants each) come first, so that the constant index of the bound
+\* type crosses the one-byte operand class (240/241) and 255/256; the binding must still be the one block of that type
+BindScale == { [shape |-> "bind-late", n |-> k] : k \in {1, 2} \cup (112..130) \cup {300, 1200} }
 BlockScale == { [shape |-> sh, n |-> k] : sh \in {"nested-def-then", "nested-def-twice"}, k \in {1, 2, 3, 8, 14, 15, 16, 17} }
 \* short-circuit jumps across the one-byte boundary of the 16-bit operand, taken and not taken
 JumpScale == { [shape |-> sh, n |-> k] : sh \in {"long-and", "long-or", "long-and-nt", "long-or-nt"}, k \in {10, 200, 250, 254, 255, 256, 257, 258, 260, 300, 510, 512, 514, 1000, 4000} }
@@ -72,6 +75,7 @@ PickScale == /\ phase = 0 /\ phase' = 1 /\ UNCHANGED bs
                 \/ Scope = "varscale" /\ \E c \in VarScale : sc' = c
                 \/ Scope = "jumps" /\ \E c \in JumpScale : sc' = c
                 \/ Scope = "blockscale" /\ \E c \in BlockScale : sc' = c
+                \/ Scope = "bindscale" /\ \E c \in BindScale : sc' = c
 Next == Grow \/ PickLit \/ PickBase \/ Damage \/ PickScale
 Spec == Init /\ [][Next]_vars
 \* what the language says about the jump-distance shapes: the short-circuit jump spans 2 + 2m bytes for m = (n - 2) \div 2 added terms;
@@ -93,6 +97,7 @@ ExpectOf(c) == CASE c.shape \in {"long-and", "long-or"} ->
                  [] c.shape \in {"long-and-nt", "long-or-nt"} -> (IF JumpSpan(c.n) > Limits.jump THEN <<99>> ELSE Dec(1 + ((c.n - 2) \div 2)))
                  [] c.shape \in {"many-vars-read", "many-vars-in-block"} -> (IF c.n + 2 > Limits.stack THEN <<>> ELSE Dec((c.n - 1) % 7))   \* the two operands need two more slots
                  [] c.shape = "vars-distinct" -> Dec(200 + (c.n - 1))
+                 [] c.shape = "bind-late" -> <<98>>          \* <<98>> = "b": a struct binding of the one block of type 'target' (name "t", k = n), two result blocks
                  \* every block prints its depth on the way in; "then": each level opens one more sibling child (printing 0) before it closes,
                  \* then a toplevel block prints 7; "twice": the whole descent is made a second time. Beyond the limit: a runtime error.
                  [] c.shape \in {"nested-def-then", "nested-def-twice"} -> (IF c.n > Limits.block THEN <<114>> ELSE BlockOut(c))      \* <<114>> = "r": runtime error
@@ -102,5 +107,5 @@ ExpectOf(c) == CASE c.shape \in {"long-and", "long-or"} ->
 DiagCol(c) == IF c.shape \in {"long-and", "long-or", "long-and-nt", "long-or-nt"} /\ JumpSpan(c.n) > Limits.jump
               THEN (IF c.shape \in {"long-or", "long-or-nt"} THEN 12 ELSE 13) + (2 * ((c.n - 2) \div 2) + 1) + 1 + 1 ELSE 0
 Emit == (Scope = "bytes" \/ phase >= 1) =>
-        PrintT(<<"CASE", ToJson([fam |-> "total", src |-> bs, shape |-> sc.shape, n |-> sc.n, expect |-> ExpectOf(sc), dcol |-> DiagCol(sc), nt |-> (Len(bs) >= 2 \/ Scope \in {"scale", "varscale", "jumps", "blockscale"})])>>)
+        PrintT(<<"CASE", ToJson([fam |-> "total", src |-> bs, shape |-> sc.shape, n |-> sc.n, expect |-> ExpectOf(sc), dcol |-> DiagCol(sc), nt |-> (Len(bs) >= 2 \/ Scope \in {"scale", "varscale", "jumps", "blockscale", "bindscale"})])>>)
 ====
